@@ -187,3 +187,170 @@ class SeqTensor(st.Tensor):
         if isinstance(i, (int, SInt)):
             return self.elem(i)
         return st.Tensor.__getitem__(self, i)
+
+
+# ---------------------------------------------------------------------------------------
+# abstract linear operators (real xitorch.LinearOperator subclasses acting on ALG vectors)
+def pb_terms(opname, idx, x, g):
+    """the cotangent of parameter #idx of operator `opname` produced by y = Op(p) x with cotangent g:
+    the functional  dp -> Re <g, (dOp/dp_idx . dp) x>,  bilinear in (g, x): normal form over atoms"""
+    out = []
+    base = alg.Op.get(opname)
+    swap = opname.endswith("^H") and not base.hermitian
+    if swap:   # Re<g, D(A^H) x> = Re<x, D(A) g>
+        opname = opname[:-2]
+        x, g = g, x
+    for xa, cx in alg.canon(x).t.items():
+        for ga, cg in alg.canon(g).t.items():
+            out.append((cg.conj() * cx, opname, idx, repr(xa), repr(ga)))
+    return out
+
+
+def pb_normal(t):
+    """pb tensor (or None = zero functional) -> {key: Sc}"""
+    d = {}
+    if t is None:
+        return d
+    if t.kind != "pb":
+        if t.kind == "sc" and t.v.is_zero():
+            return d
+        raise OutOfSubset("parameter cotangent of kind %s" % t.kind)
+    for (c, *key) in t.v:
+        key = tuple(key)
+        d[key] = (d[key] + c) if key in d else c
+    return d
+
+
+def pb_eq(a, b):
+    """z3 formula: two parameter cotangents are the same functional (normal forms agree)"""
+    da, db = pb_normal(a), pb_normal(b)
+    cs = []
+    for k in set(da) | set(db):
+        cs.append(da.get(k, alg.ZERO).eq(db.get(k, alg.ZERO)))
+    return z3.And(*cs) if cs else z3.BoolVal(True)
+
+
+def pb_pair(t, dname):
+    """pair a parameter cotangent with the tangent direction named `dname`:
+    sum_k coef_k * <g_k, (dOp . d) x_k>  as a z3 real (uninterpreted per elementary functional)"""
+    tot = z3.RealVal(0)
+    for key, c in pb_normal(t).items():
+        if not c.is_real():
+            raise OutOfSubset("complex parameter cotangent")
+        tot = tot + c.re * z3.Real("dpair<%s|%s>" % (dname, "|".join(str(k) for k in key)))
+    return tot
+
+
+def op_apply(x, opname, axis, out_n, op_batch=(), params=(), dtype=None):
+    """y = Op x along `axis` (-1 for mv, -2 for mm); Op is the abstract operator `opname`"""
+    nd = len(x._shape)
+    ax = axis % nd
+    if x.kind == "vec" and x.vaxes == (ax,):
+        val = x.v.apply(opname)
+        kind = "vec"
+    elif x.kind == "sc" and x.v.is_zero():
+        val, kind = x.v, "sc"
+    else:
+        val, kind = None, "opq"
+    xb = list(x._shape[:-2]) if axis == -2 else list(x._shape[:-1])
+    ob = list(op_batch)
+    bshape = list(st.bcast_shapes(tuple(ob), tuple(xb))) if (ob or xb) else []
+    if axis == -2:
+        shape = bshape + [out_n, x._shape[-1]]
+    else:
+        shape = bshape + [out_n]
+    if kind == "vec":
+        r = st.Tensor("vec", val, shape, dtype or x.dtype, (len(shape) + axis,))
+    elif kind == "sc":
+        r = st.Tensor("sc", val, shape, dtype or x.dtype)
+        r._is_zeros = True
+    else:
+        r = st._opaque_result("op:" + opname, [x], shape, dtype or x.dtype)
+    adj = alg.Op.get(opname).H.name
+    plist = list(params)
+
+    def vjp(g):
+        gx = op_apply(g, adj, axis, x._shape[axis], op_batch, (), None) if x.requires_grad else None
+        gps = []
+        for i, p in enumerate(plist):
+            if not p.requires_grad:
+                gps.append(None)
+            elif kind != "vec" or g.kind != "vec":
+                raise OutOfSubset("parameter pull-back through an opaque operand")
+            else:
+                gps.append(st.Tensor("pb", pb_terms(opname, i, x.v, g.v), p._shape, p.dtype))
+        return [gx] + gps
+    return st._taped("op:" + opname, [x] + plist, r, vjp)
+
+
+_ABSOP_CLASSES = {}
+
+
+def absop_class(with_rmm=True, with_mm=True, with_gpn=True):
+    """a real subclass of xitorch.LinearOperator whose products are the abstract operator `self.opname`"""
+    key = (with_rmm, with_mm, with_gpn)
+    if key in _ABSOP_CLASSES:
+        return _ABSOP_CLASSES[key]
+    from xitorch import LinearOperator
+
+    class AbsOp(LinearOperator):
+        def __init__(self, opname, n, batch=(), hermitian=False, nparams=1, m=None, dtype=None):
+            m = n if m is None else m
+            LinearOperator.__init__(self, shape=tuple(batch) + (m, n), is_hermitian=hermitian, dtype=dtype or st.float64,
+                                    _suppress_hermit_warning=True)
+            self.opname = opname
+            alg.Op.get(opname, hermitian=hermitian)
+            self.nparams = nparams
+            for i in range(nparams):
+                p = st.Tensor("par", ("par", opname, i), (3,), dtype or st.float64, requires_grad=True, name="%s.p%d" % (opname, i))
+                setattr(self, "p%d" % i, p)
+
+        def _params(self):
+            return [getattr(self, "p%d" % i) for i in range(self.nparams)]
+
+        def _mv(self, x):
+            return op_apply(x, self.opname, -1, self.shape[-2], self.shape[:-2], self._params(), self.dtype)
+
+    ns = {}
+    if with_mm:
+        def _mm(self, x):
+            return op_apply(x, self.opname, -2, self.shape[-2], self.shape[:-2], self._params(), self.dtype)
+        AbsOp._mm = _mm
+    if with_rmm:
+        def _rmv(self, x):
+            return op_apply(x, alg.Op.get(self.opname).H.name, -1, self.shape[-1], self.shape[:-2], self._params(), self.dtype)
+
+        def _rmm(self, x):
+            return op_apply(x, alg.Op.get(self.opname).H.name, -2, self.shape[-1], self.shape[:-2], self._params(), self.dtype)
+        AbsOp._rmv = _rmv
+        AbsOp._rmm = _rmm
+    if with_gpn:
+        def _getparamnames(self, prefix=""):
+            return [prefix + "p%d" % i for i in range(self.nparams)]
+        AbsOp._getparamnames = _getparamnames
+    AbsOp.__name__ = "AbsOp_%d%d%d" % key
+    _ABSOP_CLASSES[key] = AbsOp
+    return AbsOp
+
+
+
+def concrete_replay(prop, oracles, timeout=900):
+    """run the concrete oracles of /verif/replay/<prop>.py against the real code (real torch, $PYDV_REPO);
+    confirmed = the oracle observed the violation on a concrete input"""
+    import os
+    import subprocess
+    verif = os.path.dirname(os.path.dirname(os.path.abspath(__file__)))
+    repo = os.environ.get("PYDV_REPO", "/repo")
+    script = os.path.join(verif, "replay", prop + ".py")
+    py = os.environ.get("PYDV_REPLAY_PY", "/venv/bin/python")
+    env = dict(os.environ, PYTHONPATH=repo + os.pathsep + os.path.join(verif, "replay"), PYTHONDONTWRITEBYTECODE="1",
+               OMP_NUM_THREADS="2")
+    try:
+        p = subprocess.run([py, script] + list(oracles), capture_output=True, text=True, timeout=timeout, env=env,
+                           cwd=os.path.join(verif, "replay"))
+        out = (p.stdout + p.stderr)[-3000:]
+        rc = p.returncode
+    except subprocess.TimeoutExpired:
+        out, rc = "timeout", 2
+    return {"confirmed": rc == 1, "script": script, "args": list(oracles), "returncode": rc, "output": out,
+            "how_to_rerun": "PYTHONPATH=%s:%s %s %s %s" % (repo, os.path.join(verif, "replay"), py, script, " ".join(oracles))}
